@@ -35,9 +35,10 @@ PROPS = {
         "quick_runs": 20000, "thorough_runs": 300000, "seed": 1000001,
         "rule": "C01 programs: task forests of 5-200 nodes; per node a submission API (start_detached(schedule|then), execute, "
                 "detached pika::thread, register_work, register_thread, transfer_just), priority, stack class, worker hint, yields, "
-                "an optional wait for an earlier task, children spawned from inside; roots submitted by main and by 0-2 racing OS "
+                "an optional wait for an earlier task (by suspension on an event or by a yield_k spin-wait, which yields with the boost hint), children spawned from inside; roots submitted by main and by 0-2 racing OS "
                 "threads; all 8 policies, 1-16 workers, adverse queue knobs.",
-        "required_probes": ["waited_for_other_task", "tasks"],
+        "required_probes": ["waited_for_other_task", "spin_waited_for_other_task", "tasks"],
+        "kf_subs": {"kf_yield_starvation": 8},
     },
     "C17": {
         "quick_runs": 80000, "thorough_runs": 2000000, "seed": 17000001, "chunk": 4096,
